@@ -6,8 +6,8 @@ import UmProofs.BrokerScalePlanB
 sources fits into what the destinations still need, then every source master ends with exactly
 its final count, no panic, fuel suffices, and the slots handed out are exactly the surplus.
 -/
-namespace Um.Broker
-open Um Um.Slots
+namespace Um.Broker.Scale
+open Um Um.Slots Um.Broker
 
 instance : LawfulMonad R := LawfulMonad.mk'
   (id_map := fun x => by cases x <;> rfl)
@@ -17,7 +17,7 @@ instance : LawfulMonad R := LawfulMonad.mk'
 /-- what one source half has above its final count -/
 def surplusHalf (P : OutParams) (o : Option RangeList) (idx : Nat) : Nat :=
   match o with
-  | some rl => slotsNum rl - P.srcFinal idx
+  | some rl => slotsNum rl - (OutParams.srcFinal P) idx
   | none => 0
 
 def surplusChunks (P : OutParams) : List Chunk → Nat → Nat
@@ -27,7 +27,7 @@ def surplusChunks (P : OutParams) : List Chunk → Nat → Nat
 
 /-- precondition on one source half -/
 def HalfOk (P : OutParams) (o : Option RangeList) (idx : Nat) : Prop :=
-  ∀ rl, o = some rl → Asc rl ∧ P.srcFinal idx ≤ slotsNum rl ∧ slotsNum rl ≤ SLOT_NUM
+  ∀ rl, o = some rl → Asc rl ∧ (OutParams.srcFinal P) idx ≤ slotsNum rl ∧ slotsNum rl ≤ SLOT_NUM
 
 def SrcOk (P : OutParams) : List Chunk → Nat → Prop
   | [], _ => True
@@ -37,7 +37,7 @@ def SrcOk (P : OutParams) : List Chunk → Nat → Prop
 def HalfDone (P : OutParams) (o o' : Option RangeList) (idx : Nat) : Prop :=
   match o with
   | none => o' = none
-  | some _ => ∃ rl', o' = some rl' ∧ slotsNum rl' = P.srcFinal idx ∧ Asc rl'
+  | some _ => ∃ rl', o' = some rl' ∧ slotsNum rl' = (OutParams.srcFinal P) idx ∧ Asc rl'
 
 def SrcDone (P : OutParams) : List Chunk → List Chunk → Nat → Prop
   | [], [], _ => True
@@ -67,13 +67,13 @@ theorem srcChunks_cons (P : OutParams) (ch : Chunk) (rest : List Chunk) (i : Nat
 structure StepPost (P : OutParams) (st st' : LoopSt) (surplus lo hi : Nat) : Prop where
   inv : StInv P st'
   empty : st'.curSlots = []
-  given : P.given st' = P.given st + surplus
+  given : (OutParams.given P) st' = (OutParams.given P) st + surplus
   mono : st.dstIdx ≤ st'.dstIdx
   outs : ∃ new, st'.out = st.out ++ new ∧ ∀ ms ∈ new, lo ≤ ms.mm.srcChunk ∧ ms.mm.srcChunk < hi
 
 theorem halfStep_spec (P : OutParams) (hav : 1 ≤ P.average) (i part : Nat) (hp : part < 2)
     (o : Option RangeList) (st : LoopSt) (hok : HalfOk P o (i * 2 + part)) (hinv : StInv P st)
-    (hempty : st.curSlots = []) (hbud : P.given st + surplusHalf P o (i * 2 + part) ≤ P.total) :
+    (hempty : st.curSlots = []) (hbud : (OutParams.given P) st + surplusHalf P o (i * 2 + part) ≤ (OutParams.total P)) :
     ∃ o' st', halfStep P i part o st = R.ok (o', st') ∧ HalfDone P o o' (i * 2 + part) ∧
       StepPost P st st' (surplusHalf P o (i * 2 + part)) i (i + 1) := by
   cases o with
@@ -82,7 +82,7 @@ theorem halfStep_spec (P : OutParams) (hav : 1 ≤ P.average) (i part : Nat) (hp
   | some rl =>
     obtain ⟨hasc, hge, hle⟩ := hok rl rfl
     simp only [surplusHalf] at hbud ⊢
-    have hfuel : slotsNum rl < P.srcFinal (i * 2 + part) + loopFuel := by
+    have hfuel : slotsNum rl < (OutParams.srcFinal P) (i * 2 + part) + loopFuel := by
       simp only [SLOT_NUM] at hle; simp only [loopFuel]; omega
     obtain ⟨rl', st', hr, hpost⟩ := srcWhile_spec P hav i part hp loopFuel rl st hasc hge hfuel (by omega) hinv
       (fun h => absurd hempty h) (hempty ▸ piecesBelow_nil rl) _ rfl
@@ -94,7 +94,7 @@ theorem halfStep_spec (P : OutParams) (hav : 1 ≤ P.average) (i part : Nat) (hp
 
 theorem srcChunks_spec (P : OutParams) (hav : 1 ≤ P.average) :
     ∀ (chunks : List Chunk) (i : Nat) (st : LoopSt), SrcOk P chunks i → StInv P st → st.curSlots = [] →
-      P.given st + surplusChunks P chunks i ≤ P.total →
+      (OutParams.given P) st + surplusChunks P chunks i ≤ (OutParams.total P) →
       ∃ chunks' st', srcChunks P chunks i st = R.ok (chunks', st') ∧ SrcDone P chunks chunks' i ∧
         StepPost P st st' (surplusChunks P chunks i) i (i + chunks.length) := by
   intro chunks
@@ -133,4 +133,4 @@ theorem srcChunks_spec (P : OutParams) (hav : 1 ≤ P.average) :
         · have := g1 ms hms; omega
       · have := g2 ms hms; omega
 
-end Um.Broker
+end Um.Broker.Scale
